@@ -57,6 +57,10 @@ def build(chk):
     # the iteration helpers between wallPressure and the pressure tail pass the profiles and boundary data through unchanged (shared with C01)
     from .C01_wallsolver import c_getNextPressure
     c_getNextPressure(chk)
+    # the quadrature along z that turns the integrand into the pressure (Gauss-Chebyshev-Lobatto weights pi/M; shared with C16; M != N on purpose)
+    from .C16_polynomial import one_axis
+    one_axis(chk, 4, 5, 'z', False)
+    one_axis(chk, 4, 5, 'z', True)
 
 
 def c_minimiser_bounds(chk, run_tail=False):
